@@ -390,11 +390,60 @@ func render() string {
 		} else {
 			out = append(out, fmt.Sprintf("?>%d other", s.face))
 		}
+		// every further top-level Interest / Data TLV that travels in the same transmission is a packet
+		// transmitted on that face as well
+		for _, x := range extraPackets(s.raw) {
+			out = append(out, fmt.Sprintf("%s>%d %s %s t=trailing", x.kind, shownID(s.face), x.name, x.attr))
+		}
 	}
 	sends = nil
 	sort.Strings(out)
 	return strings.Join(out, " ; ")
 }
+
+type extraPkt struct{ kind, name, attr string }
+
+// extraPackets: the well-formed Interest / Data TLVs that FOLLOW the first top-level TLV of a transmission.
+func extraPackets(raw []byte) []extraPkt {
+	var out []extraPkt
+	first := true
+	for len(raw) > 0 {
+		typ, n1 := enc.ParseTLNum(raw)
+		if n1 <= 0 || n1 >= len(raw) {
+			break
+		}
+		l, n2 := enc.ParseTLNum(raw[n1:])
+		if n2 <= 0 || n1+n2+int(l) > len(raw) {
+			break
+		}
+		one := raw[:n1+n2+int(l)]
+		raw = raw[n1+n2+int(l):]
+		if first {
+			first = false
+			continue
+		}
+		if typ != 5 && typ != 6 {
+			continue
+		}
+		p, _, err := spec.ReadPacket(enc.NewBufferReader(one))
+		if err != nil {
+			continue
+		}
+		if p.Interest != nil {
+			out = append(out, extraPkt{"I", common.NameText(p.Interest.NameV), "h=-"})
+		} else if p.Data != nil {
+			c := 0
+			if b := p.Data.ContentV.Join(); len(b) > 0 {
+				c = int(b[0])
+			}
+			out = append(out, extraPkt{"D", common.NameText(p.Data.NameV), "c=" + strconv.Itoa(c)})
+		}
+	}
+	return out
+}
+
+// trailing: for op IT — a second packet (Data /localhost/smuggled) appended to the Interest inside ONE frame
+var trailing []byte
 
 func doInterest(f []string) string {
 	if th == nil {
@@ -439,6 +488,12 @@ func doInterest(f []string) string {
 	pieces := 1
 	if cfg.HopLimit != nil {
 		pieces = 2 + int(*cfg.HopLimit%2)
+	}
+	if len(trailing) > 0 {
+		if _, ok := lsFaces[faceID]; !lsMode || !ok {
+			return "skip" // only a real link service decodes frames
+		}
+		wire = append(append([]byte{}, wire...), trailing...)
 	}
 	if !inject(faceID, wire, itok, nh, pieces) && len(threads) == 1 {
 		pkt := &defn.Pkt{Name: l3.Interest.NameV, L3: l3, Raw: wire, IncomingFaceID: utils.IdPtr(faceID), PitToken: itok, NextHopFaceID: nh}
@@ -1027,6 +1082,18 @@ func Exec(op string) string {
 		if len(f) != 11 {
 			return "bad-op"
 		}
+		return doInterest(f)
+	case "IT":
+		// the same Interest with a second, complete packet behind it in the SAME frame: Data /localhost/smuggled
+		if len(f) != 11 {
+			return "bad-op"
+		}
+		ed, err := spec.Spec{}.MakeData(common.ParseNameText("/8:6c6f63616c686f7374/8:736d7567676c6564"), &ndn.DataConfig{}, enc.Wire{[]byte{77}}, nil)
+		if err != nil {
+			return "err-make"
+		}
+		trailing = ed.Wire.Join()
+		defer func() { trailing = nil }()
 		return doInterest(f)
 	case "D":
 		if len(f) != 6 {
